@@ -202,7 +202,8 @@ def obligations(tier: str, known: List[str]) -> List[Ob]:
     T = 1500 if thorough else 600
     excl = KEY_CLOCK in known
     obs: List[Ob] = []
-    for h in ((2, RETARGET, RETARGET + 1, HALVING) if thorough else (2, RETARGET, HALVING)):
+    for h in ((2, 3, RETARGET - 1, RETARGET, RETARGET + 1, 2 * RETARGET, HALVING - 1, HALVING, HALVING + 1, 2 * HALVING, 64 * HALVING)
+              if thorough else (2, RETARGET, HALVING)):
         for npool in (0, 1, 2):
             if not thorough and h != 2 and npool == 1:
                 continue
